@@ -57,13 +57,34 @@ def grammar_model(c):
     if not s.ok:
         c.tool_error(f"MCGrammar simulation: {s.violated or s.error_text} {s.raw_tail[-600:]}")
     d2, nd2 = replay_model_cases(c, sgz, "sim")
+    # B3: parses of corpus / mutated / random texts by the real parser (tokens as the parser's Input, raw events) validated against the machine spec
+    cp = os.path.join(c.work, "corpus_gt.json")
+    json.dump(corpus_mod.collect(), open(cp, "w"))
+    gt = os.path.join(c.work, "gtrace.ndjson")
+    nm, nr = (25, 25) if c.quick else (400, 400)
+    p = run_harness(["gram-trace-record", c.seed, cp, nm, nr, 60, gt], timeout=3000)
+    if p.returncode != 0:
+        c.tool_error("gram-trace-record failed: " + p.stderr[-1500:])
+    rec = json.loads(p.stdout.strip().split("\n")[-1])
+    for pn in rec["panics"][:3]:
+        c.report({"kind": "panic", "what": "lexing / parsing panicked while a parse was recorded", "text": pn["text"], "panic": pn["panic"], "site": (pn["panic"] or {}).get("func", "")})
+    tr = run_tlc("pgrammar", "GrammarTrace", "GrammarTrace.cfg", workers=1, timeout=3000, dfs=True, xss="1g", xmx="12g", lib="events", env={"TRACE": gt})
+    rej = tr.tagged.get("REJECT")
+    ngt = 0
+    if rej:
+        nd2 += 1
+        c.drift.append({"via": "GrammarTrace", "text": rej[0].get("text"), "diff": rej[0].get("diff")})
+    elif not tr.ok:
+        c.tool_error(f"GrammarTrace validation did not complete: {tr.error_text} {tr.raw_tail[-600:]}")
+    else:
+        ngt = rec["recorded"]
     if nd + nd2:
         c.notes.append(f"model drift: on {nd + nd2} token sequences the real parser's raw events are not those of the grammar machine spec (Grammar.tla); C01's clauses are evaluated on the real run")
     c.cov["grammar_machine_spec"] = {"cfg": cfg, "states": r.distinct, "sequences_replayed": d["cases"], "families": d["families"], "node_kinds_seen": len(d["node_kinds"]),
-                                     "simulated_sequences_replayed": d2["cases"], "drift": nd + nd2,
+                                     "simulated_sequences_replayed": d2["cases"], "drift": nd + nd2, "corpus_parses_validated_by_tlc": ngt,
                                      "invariant": "C01_Model: ReturnsNormally /\\ ConsumesAll /\\ MarkersDischarged (one balanced tree after event::process) /\\ LinearWork /\\ tokens consumed exactly once"}
     c.cov["states"] = c.cov.get("states", 0) + r.distinct
-    c.cov["traces_validated_against_impl"] = c.cov.get("traces_validated_against_impl", 0) + d["cases"] + d2["cases"]
+    c.cov["traces_validated_against_impl"] = c.cov.get("traces_validated_against_impl", 0) + d["cases"] + d2["cases"] + ngt
     c.assumptions.append("grammar machine spec: nine token families, sequences <= 2-5 tokens (quick) / <= 2-6 (thorough) with every jointness pattern, plus simulated sequences of up to 14-16 tokens")
 
 
